@@ -8,8 +8,8 @@
    `var x = nil` of a body that starts) in the same step: nothing observable lies in between.
 
    Outside the mini-language (outcome OInvalid in both interpreters, rejected by `valid_prog`, never
-   rendered): `return` or the end of a body inside an open `try`, an unmatched `}` , a reference to a
-   fiber that is not created. *)
+   rendered): `return` or the end of a body inside an open `try`, `return` in the main script, an
+   unmatched `}` , a reference to a fiber that is not created. *)
 From Coq Require Import List ZArith NArith Bool Arith String Ascii.
 From YV Require Import Show Wire FiberBase Coroutines Fibers.
 Import ListNotations.
@@ -410,22 +410,23 @@ Definition eval_mech (pn : bool) (p : prog) : result := fst (eval_mech_full pn p
 (* ------------------------------------------------------------------------------------------ *)
 (* static validity = what `render` accepts *)
 
-Fixpoint valid_code (nf : nat) (depth : nat) (code : list action) : bool :=
+(* `ret`: may the body return (the main script may not: "Cannot return from top-level code") *)
+Fixpoint valid_code (ret : bool) (nf : nat) (depth : nat) (code : list action) : bool :=
   match code with
   | [] => Nat.eqb depth 0
   | a :: r =>
     match a with
-    | ATry => valid_code nf (S depth) r
-    | AEndTry => match depth with 0 => false | S d => valid_code nf d r end
-    | AReturn _ => Nat.eqb depth 0 && valid_code nf depth r
-    | ACall _ k _ _ | ACall2 k _ _ | AHasFinished k => (Nat.leb 1 k && Nat.leb k nf) && valid_code nf depth r
-    | _ => valid_code nf depth r
+    | ATry => valid_code ret nf (S depth) r
+    | AEndTry => match depth with 0 => false | S d => valid_code ret nf d r end
+    | AReturn _ => ret && Nat.eqb depth 0 && valid_code ret nf depth r
+    | ACall _ k _ _ | ACall2 k _ _ | AHasFinished k => (Nat.leb 1 k && Nat.leb k nf) && valid_code ret nf depth r
+    | _ => valid_code ret nf depth r
     end
   end.
 
 Definition valid_prog (p : prog) : bool :=
   let nf := List.length (p_fibers p) in
-  valid_code nf 0 (p_main p) && forallb (fun d => valid_code nf 0 (fd_body d)) (p_fibers p).
+  valid_code false nf 0 (p_main p) && forallb (fun d => valid_code true nf 0 (fd_body d)) (p_fibers p).
 
 (* ------------------------------------------------------------------------------------------ *)
 (* rendering of results *)
